@@ -77,6 +77,10 @@ type simChan struct {
 	k          uint32
 	refreshing bool
 	refreshes  int // completed refreshes (never reset)
+	// suspended: the old connection was shut down while a replacement is pending;
+	// the channel comes back when the replacement becomes READY (the repository's
+	// own TestShutdownWhileRefreshing expects exactly that take-over)
+	suspended bool
 }
 
 func (c *simChan) ready() bool { return c.alive && c.conn.state == connectivity.Ready }
@@ -136,6 +140,13 @@ var _ context.Context = (*simCtx)(nil)
 
 // request / reply message used by the configured methods
 type simNested struct{ Key string }
+
+// hostile shapes: the key field is promoted through an embedded pointer
+type simEmbInner struct{ Key string }
+type simEmbMsg struct {
+	*simEmbInner
+	Other string
+}
 type simMsg struct {
 	Key    string
 	Keys   []string
@@ -191,11 +202,13 @@ type sim struct {
 	opCount  int
 	resolved bool // a non-empty resolver update was accepted
 
-	log     []string
-	viol    *vViol
-	dead    bool // the balancer is unusable (deadlock) - stop the history
-	caseIdx int64
-	hits    map[string]int64
+	log       []string
+	viol      *vViol
+	exemptMax bool
+	stuck     bool // an op goroutine was left spinning: stop the whole batch (it burns a CPU)
+	dead      bool // the balancer is unusable (deadlock) - stop the history
+	caseIdx   int64
+	hits      map[string]int64
 
 	// effective configuration (contract defaults applied by the harness)
 	minSize, maxSize, wm int
@@ -421,8 +434,9 @@ func (s *sim) completed(h *vOp, st string, what string) bool {
 		s.dead = true
 		return false
 	default:
-		s.fail("C06.stuck", vRepoChain(h.frames, simPkg), "%s still running after the watchdog (state %q)", what, h.state)
+		s.fail("C06.stuck", vRepoChain(h.frames, simPkg), "%s is still running after %v without returning, parking or waiting for a lock (state %q): it spins in %s", what, vStuckAfter, h.state, vRepoChain(h.frames, simPkg))
 		s.dead = true
+		s.stuck = true
 		return false
 	}
 }
@@ -534,14 +548,14 @@ func (s *sim) afterOp() {
 		s.fail("C03.pool-size", "", "pool map has %d entries, shadow pool has %d channels", len(s.b.scRefs), len(s.pool()))
 	}
 	// C04 aggregate
-	if len(s.pubs) > 0 {
+	if len(s.pubs) > 0 && s.hits["C04.missing-publish-deferred"] == 0 {
 		s.hit("C04.aggregate")
 		if got, want := s.pubs[len(s.pubs)-1].state, s.aggregate(); got != want {
 			s.fail("C04.aggregate", fmt.Sprintf("%v-vs-%v", got, want), "last published state %v, pool says %v (op %s)", got, want, s.curOp)
 		}
 	}
 	// C03 bound
-	if s.minSize <= s.maxSize {
+	if s.minSize <= s.maxSize && !s.exemptMax {
 		s.hit("C03.max")
 		if len(s.pool()) > s.maxSize {
 			s.fail("C03.max", "", "pool has %d channels > maxSize %d", len(s.pool()), s.maxSize)
@@ -704,6 +718,9 @@ func (s *sim) report(c *simConn, st connectivity.State) {
 		c.state = st
 		if st == connectivity.Shutdown {
 			c.ch.alive = false
+			if c.ch.repl != nil {
+				c.ch.suspended = true
+			}
 			s.compVer++
 			for _, cl := range s.calls {
 				if cl.ch == c.ch {
@@ -727,7 +744,7 @@ func (s *sim) report(c *simConn, st connectivity.State) {
 			becameReady = append(becameReady, c.ch)
 		}
 		expectPub = (old == connectivity.Ready) != (st == connectivity.Ready)
-	case role == "replacement" && st == connectivity.Ready && c.replOf.alive:
+	case role == "replacement" && st == connectivity.Ready && (c.replOf.alive || c.replOf.suspended):
 		known = true
 		ch := c.replOf
 		swap = ch
@@ -740,6 +757,15 @@ func (s *sim) report(c *simConn, st connectivity.State) {
 		c.ch = ch
 		ch.conn = c
 		ch.repl = nil
+		if ch.suspended {
+			ch.suspended, ch.alive = false, true
+			// a channel torn down by gRPC and taken over again by its pending
+			// replacement is outside what the maxSize clause speaks about (the pool
+			// may have been re-created in between)
+			s.exemptMax = true
+			s.compVer++
+			s.hit("C07.takeover-after-old-shutdown")
+		}
 		c.state = connectivity.Ready
 		ch.t0 = verifClock
 		ch.n = 0
@@ -813,6 +839,12 @@ func (s *sim) report(c *simConn, st connectivity.State) {
 				if tfBoundary {
 					cls = "tf-boundary"
 				}
+				if swap != nil && (s.prop == "C01" || s.prop == "C08") {
+					// judged by the keyed-pick rules below: the most recently published
+					// picker must still route bound keys correctly
+					s.hit("C04.missing-publish-deferred")
+					goto afterPublishRule
+				}
 				if swap != nil && s.prop == "C07" {
 					// the same observation under C07's wording: the replacement did not take over a channel whose old connection had left READY
 					s.fail("C07.swap-takeover", cls, "replacement %v became READY for channel %d whose old connection was not READY, but no new picker/state was published: the replacement did not take over the channel", c, swap.id)
@@ -820,6 +852,7 @@ func (s *sim) report(c *simConn, st connectivity.State) {
 				s.fail("C04.missing-publish", cls, "state %v -> %v, aggregate %v -> %v: nothing published", c, st, aggBefore, aggAfter)
 			}
 		}
+	afterPublishRule:
 		if swap != nil && !expectPub && s.pubInOp > 0 {
 			// completing a refresh whose old connection was READY must not perturb the published state
 			if s.pubs[len(s.pubs)-1].state != aggAfter {
@@ -985,6 +1018,12 @@ func (s *sim) start(method string, key string, p *simPub, withGcp bool, hasDl bo
 		s.fail("C04.tf-picker", fmt.Sprintf("%v", p.state), "picker published with %v returned err=%v", p.state, err)
 	}
 	if p.state == connectivity.TransientFailure {
+		if kk := (kind == "bound" || kind == "unbind") && withGcp && key != "" && !useOverride; kk && isCur {
+			if home, isBound := s.bind[key]; isBound && home.ready() {
+				s.hit("C01.home-ready-cur")
+				s.fail("C01.home-ready", "cur-tf-picker", "key %q bound to ch%d (READY) but the most recently published picker fails every call with %v", key, home.id, err)
+			}
+		}
 		s.afterOp()
 		return
 	}
@@ -1308,7 +1347,9 @@ func (s *sim) finish(i int, outcome string, replyKeys []string) {
 	case "cancel":
 		err = status.Error(codes.Canceled, "context canceled")
 	}
-	if c.ctx.gc != nil {
+	if c.ctx.gc != nil && s.hostile && s.rng.Intn(12) == 0 {
+		c.ctx.gc.replyMsg = []interface{}{&simEmbMsg{}, nil, (*simMsg)(nil), "str", &simEmbMsg{simEmbInner: &simEmbInner{Key: "k1"}}}[s.rng.Intn(5)]
+	} else if c.ctx.gc != nil {
 		switch len(replyKeys) {
 		case 0:
 			c.ctx.gc.replyMsg = &simMsg{}
@@ -1499,6 +1540,11 @@ func simMethodTable() (map[string]simMethod, []*pb.MethodConfig) {
 		"/v/boundn":    {"bound", "nested.key"},
 		"/v/boundmany": {"bound", "keys"},
 		"/v/unbind":    {"unbind", "key"},
+		// locators with empty segments (only requested in hostile histories)
+		"/v/boundempty": {"bound", ""},
+		"/v/bounddot":   {"bound", "nested."},
+		"/v/unbinddots": {"unbind", "nested..key"},
+		"/v/bindempty":  {"bind", ""},
 	}
 	cmd := map[string]pb.AffinityConfig_Command{"bind": pb.AffinityConfig_BIND, "bound": pb.AffinityConfig_BOUND, "unbind": pb.AffinityConfig_UNBIND}
 	var names []string
@@ -1574,6 +1620,7 @@ func simBias(prop string, rng *vRand) map[string]bool {
 	case "C07":
 		pick("extreme", 12)
 		pick("refresh", 88)
+		pick("orphan-refresh", 15)
 		pick("factoryfail", 30)
 		pick("keys", 40)
 		pick("states", 30)
@@ -1595,6 +1642,7 @@ func simBias(prop string, rng *vRand) map[string]bool {
 	case "C20":
 		pick("resolve", 100)
 		pick("refresh", 70)
+		pick("orphan-refresh", 40)
 		pick("saturate", 50)
 		pick("shutdown", 25)
 		pick("factoryfail", 20)
@@ -1712,9 +1760,17 @@ func simRunCase(env vEnv, out *vOut, idx int64) *sim {
 	if b["rebind-macro"] && s.fallback && !s.hostile && !s.rr {
 		macroAt = rng.Intn(nOps)
 	}
+	orphanFrom := -1
+	if b["orphan-refresh"] && s.det && !s.hostile && !s.rr {
+		orphanFrom = rng.Intn(nOps)
+	}
 	for i := 0; i < nOps && s.viol == nil && !s.dead; i++ {
 		if i == macroAt {
 			s.macroRebindAfterFallbackUnbind()
+			continue
+		}
+		if orphanFrom >= 0 && i >= orphanFrom && s.macroShutdownDuringRefresh() {
+			orphanFrom = -1
 			continue
 		}
 		s.step()
@@ -2012,7 +2068,7 @@ func (s *sim) stepPick() {
 	if s.hostile && rng.Chance(25) {
 		// malformed requests
 		var req interface{}
-		switch rng.Intn(6) {
+		switch rng.Intn(8) {
 		case 0:
 			req = nil
 		case 1:
@@ -2025,8 +2081,12 @@ func (s *sim) stepPick() {
 			req = struct{ Key int }{7}
 		case 5:
 			req = &simMsg{Keys: []string{}}
+		case 6:
+			req = &simEmbMsg{} // key promoted through a nil embedded pointer
+		case 7:
+			req = &simEmbMsg{simEmbInner: &simEmbInner{Key: key}}
 		}
-		ms := []string{"/v/bound", "/v/boundn", "/v/unbind", "/v/bindmany", "/v/bind", "/v/boundmany"}
+		ms := []string{"/v/bound", "/v/boundn", "/v/unbind", "/v/bindmany", "/v/bind", "/v/boundmany", "/v/boundempty", "/v/bounddot", "/v/unbinddots", "/v/bindempty"}
 		s.start(ms[rng.Intn(len(ms))], key, p, withGcp, hasDl, dl, req, true)
 		return
 	}
@@ -2164,7 +2224,13 @@ func TestVerifPoolSim(t *testing.T) {
 	}
 	out := vNewOut(env, "poolsim")
 	cases := env.vCases(simCaseCount(env))
+	vStuckAfter = 8 * time.Second
+	nStuck := 0
 	for _, idx := range cases {
+		if nStuck >= 2 {
+			out.inconclusive("batch stopped early: operations left spinning")
+			break
+		}
 		s := simRunCase(env, out, idx)
 		if env.Replay >= 0 {
 			// the code under test iterates Go maps (tie-breaks among equally loaded
@@ -2175,6 +2241,9 @@ func TestVerifPoolSim(t *testing.T) {
 			}
 		}
 		out.Evaluations++
+		if s.stuck {
+			nStuck++
+		}
 		if s.hostile && s.opCount >= 10 {
 			s.hits["C05.hostile-case"]++
 		}
@@ -2363,4 +2432,38 @@ func (s *sim) macroRebindAfterFallbackUnbind() {
 	// 6. a call for the key must go to its new home
 	s.hit("C01.macro-rebind-complete")
 	s.start("/v/bound", key, cur(), true, false, 0, nil, false)
+}
+
+// macroShutdownDuringRefresh: the old connection of a channel whose refresh is
+// in progress is shut down (gRPC tears it down), a resolver update arrives,
+// then the replacement connects and becomes READY and takes the channel over.
+// Returns false if no refresh is in progress right now.
+func (s *sim) macroShutdownDuringRefresh() bool {
+	var ch *simChan
+	for _, c := range s.pool() {
+		if c.repl != nil {
+			ch = c
+		}
+	}
+	if ch == nil {
+		return false
+	}
+	ok := func() bool { return s.viol == nil && !s.dead }
+	repl := ch.repl
+	s.hit("C20.macro-shutdown-during-refresh")
+	s.report(ch.conn, connectivity.Shutdown)
+	if !ok() {
+		return true
+	}
+	s.resolve(false, nil, false)
+	if !ok() {
+		return true
+	}
+	if repl.state == connectivity.Idle {
+		s.report(repl, connectivity.Connecting)
+	}
+	if ok() {
+		s.report(repl, connectivity.Ready)
+	}
+	return true
 }
